@@ -8,7 +8,9 @@
                         positions of the game (history[0 .. counter-2]); the history is the key sequence of the game by C02's
                         postcondition (one entry appended per move), keys identify positions by C04 (up to collisions)
   is_draw            == rule50 or threefold or insufficient material
-  is_checkmate / is_stalemate: need the move-generator contract (C01) - NOT decided here yet.
+  is_checkmate / is_stalemate
+                     == (no move generated for the side to move) && / && not (side to move in check), over the contracts of
+                        generate_moves (emitted count abstract; its meaning - the number of legal moves - is C01's) and is_in_check
 """
 from runner import Job, tu
 from props.poscommon import *
@@ -19,9 +21,9 @@ EXPLANATION = ('Each predicate under contract against its rule-level meaning for
                'repetition scans are closed by complete unwinding to the history capacity (800).')
 ASSUMPTIONS = ['64-bit keys do not collide (same key <=> same placement/side/rights/e.p., C04)', 'the history array holds the keys of all positions of the game since the last FEN (C02: do_move appends exactly the new key)',
                'slider_attack == ray walk, KNIGHT_MASK == knight moves (C11)',
-               'is_checkmate / is_stalemate are not decided (they depend on the exactness of move generation, C01)',
+               'is_checkmate / is_stalemate: decided relative to the contract of generate_moves (emitted count == number of legal moves, C01; the side dispatch of the generate_moves wrapper is its own group) and of is_in_check',
                'half-move clock is a uint8_t: games keep it <= 150 (precondition of do_move in C02)']
-NOT_COVERED = ['is_checkmate', 'is_stalemate', 'tools/regression game adjudication loop']
+NOT_COVERED = ['tools/regression game adjudication loop']
 
 TUS7 = tu('position.cpp', 'types.cpp', 'zobrist_hash.cpp', 'bithacks.cpp', 'move_bitboards.cpp')
 CHK, R50, ENO, REP, TF, DRW = ('Position__is_in_check', 'Position__rule50', 'Position__enough_material', 'Position__is_repeated',
@@ -122,6 +124,41 @@ _Bool spec_all_differ_but(const struct Position *p, int but)
     kwd = dict(common); kwd['pre_text'] = HDECL + '_Bool G_TFV;\n'
     out.append(Job('is_draw', TUS7, [DRW], h, 'h_h', contracts={DRW: c_drwa, TF: c_tfa}, nobody=[TF], enforce=DRW, replace=[TF],
                    unwindset=loops_unwind([('verif_find', 6)]), timeout=1800, note='is_draw == fifty-move rule or (the value of) threefold_repetition or insufficient material; threefold_repetition replaced by the frame part of its proven contract with an abstract result', **kwd))
+    # is_checkmate / is_stalemate over the contracts of generate_moves (C01) and is_in_check (above).  Both callees are applied with an
+    # abstract result: the ghost G_N stands for "the number of moves generate_moves emits" - by C01 (leaves, composition, assembly,
+    # theorem) that is the number of legal moves of the side to move - and the ghost G_CHKV for "the value is_in_check returns for the
+    # side to move" - by C07/is_in_check that is "the side to move is in check".  The obligations here pin what the two predicates do
+    # with those answers, for every value of both: they must ask about the position itself, for the side TO MOVE, generate into a
+    # buffer of full capacity that they own, and answer  (no legal move) && in check  resp.  (no legal move) && !in check.
+    MATE, STALE = 'Position__is_checkmate', 'Position__is_stalemate'
+    c_gm = ('__CPROVER_requires($1 == G_SELF && $2 <= 1 && $2 == $1->_current_side && __CPROVER_same_object($3, MOVE_LIST) && __CPROVER_POINTER_OFFSET($3) % 1024 == 0 && __CPROVER_POINTER_OFFSET($3) + 1024 <= __CPROVER_OBJECT_SIZE(MOVE_LIST))\n'
+            '__CPROVER_assigns(__CPROVER_object_whole(MOVE_LIST))\n'
+            '__CPROVER_ensures(__CPROVER_same_object(__CPROVER_return_value, MOVE_LIST) && __CPROVER_POINTER_OFFSET(__CPROVER_return_value) == __CPROVER_POINTER_OFFSET(__CPROVER_old($3)) + 4 * (size_t)G_N)\n')
+    c_chk = ('__CPROVER_requires(self == G_SELF && side == self->_current_side)\n__CPROVER_assigns()\n__CPROVER_ensures(__CPROVER_return_value == G_CHKV)\n')
+    for fn, nm, want in ((MATE, 'is_checkmate', 'G_CHKV'), (STALE, 'is_stalemate', '!G_CHKV')):
+        c_fn = ('__CPROVER_requires(wf_pos(self) && self == G_SELF && G_N <= 255)\n__CPROVER_assigns(__CPROVER_object_whole(MOVE_LIST))\n'
+                '__CPROVER_ensures(__CPROVER_return_value == (G_N == 0 && %s))\n' % want)
+        h = ND + ('void h_m(void) { struct Position P = nondet_Position(); W_P = P; G_SELF = &P; G_N = nondet_u32(); G_CHKV = nondet_bool();\n'
+                  '  %s(&P);' % fn + CANARY + '}\n')
+        kwm = dict(common); kwm['pre_text'] = HDECL + 'const struct Position *G_SELF; uint32_t G_N; _Bool G_CHKV;\n'
+        out.append(Job(nm, tu('movegen.cpp', 'position.cpp', 'types.cpp', 'zobrist_hash.cpp', 'bithacks.cpp', 'move_bitboards.cpp'), [fn], h, 'h_m',
+                       contracts={fn: c_fn, 'generate_moves': c_gm, CHK: c_chk}, nobody=['generate_moves', CHK], enforce=fn, replace=['generate_moves', CHK], stubs=['generate_moves'],
+                       force_globals=['MOVE_LIST'], timeout=1800,
+                       note=nm + ' == (the side to move has no legal move) && ' + ('in check' if want == 'G_CHKV' else 'not in check') +
+                       ': generate_moves replaced by its contract with the emitted count abstract (meaning: C01), is_in_check by its contract with the value abstract (meaning: C07/is_in_check); '
+                       'both must be asked about this position and the side to move, into a 256-move row of MOVE_LIST', **kwm))
+    # the generate_moves wrapper itself: dispatch on the side handed in; generate_legal_moves<side> by the interface part of its C01
+    # contract (it must be called for the side to move, C01 compose precondition `_current_side == side`), emitted count abstract
+    GLM = ['generate_legal_moves_0', 'generate_legal_moves_1']
+    c_glm = {GLM[sd]: ('__CPROVER_requires($1 == G_SELF && $1->_current_side == %d && __CPROVER_same_object($2, MOVE_LIST) && __CPROVER_POINTER_OFFSET($2) %% 1024 == 0 && __CPROVER_POINTER_OFFSET($2) + 1024 <= __CPROVER_OBJECT_SIZE(MOVE_LIST))\n' % sd +
+                       '__CPROVER_assigns(__CPROVER_object_whole(MOVE_LIST))\n'
+                       '__CPROVER_ensures(__CPROVER_same_object(__CPROVER_return_value, MOVE_LIST) && __CPROVER_POINTER_OFFSET(__CPROVER_return_value) == __CPROVER_POINTER_OFFSET(__CPROVER_old($2)) + 4 * (size_t)G_N)\n') for sd in (0, 1)}
+    h = ND + ('void h_w(void) { struct Position P = nondet_Position(); W_P = P; G_SELF = &P; G_N = nondet_u32(); __CPROVER_assume(G_N <= 255); uint32_t row = nondet_u32(); __CPROVER_assume(row < 160);\n'
+              '  generate_moves(&P, P._current_side, MOVE_LIST[row]);' + CANARY + '}\n')
+    kwm = dict(common); kwm['pre_text'] = HDECL + 'const struct Position *G_SELF; uint32_t G_N; _Bool G_CHKV;\n'
+    out.append(Job('generate_moves_wrapper', tu('movegen.cpp', 'position.cpp', 'types.cpp', 'zobrist_hash.cpp', 'bithacks.cpp', 'move_bitboards.cpp'), ['generate_moves'], h, 'h_w',
+                   contracts=dict(c_glm, generate_moves=c_gm), nobody=GLM, enforce='generate_moves', replace=GLM, stubs=GLM, force_globals=['MOVE_LIST'], timeout=1800,
+                   note='generate_moves(position, side to move, list) hands the position and the list to generate_legal_moves<side to move> and returns its end pointer: the wrapper inherits the C01 contract (emitted count abstract)', **kwm))
     # each scan is checked in two groups, split on which ghost witness is in force (same contract, same loop contract, smaller case space):
     #   /witnessed : some earlier occurrence(s) are witnessed (G_ONE or G_TWO)  -> the "answers true" direction
     #   /absent    : no witness flag set; G_NONE / G_AM1 (all earlier entries, but at most one, differ) -> the "answers false" direction
